@@ -7,7 +7,7 @@ git checkout -q -- . ; git clean -fdq -e _out -e target
 git apply _out/patch.diff || { echo "PATCH DOES NOT APPLY"; exit 1; }
 if cargo test --workspace --offline >/tmp/vs-suite.log 2>&1; then echo "suite with patch: PASS ($(grep -c '^test .* ok$' /tmp/vs-suite.log) tests ok)"; else echo "suite with patch: FAIL"; grep -E "FAILED|panicked" /tmp/vs-suite.log | head; fi
 git apply _out/demo.diff || { echo "DEMO DOES NOT APPLY"; exit 1; }
-if cargo test ${CRATE:+-p $CRATE} --offline "$FILTER" >/tmp/vs-demo1.log 2>&1; then echo "demo with patch: PASSES (bad)"; else echo "demo with patch: fails (good): $(grep -E 'panicked|assert' /tmp/vs-demo1.log | head -2 | tr '\n' ' ' | cut -c1-300)"; fi
+if cargo test ${CRATE:+-p $CRATE} --offline $FILTER >/tmp/vs-demo1.log 2>&1; then echo "demo with patch: PASSES (bad)"; else echo "demo with patch: fails (good): $(grep -E 'panicked|assert' /tmp/vs-demo1.log | head -2 | tr '\n' ' ' | cut -c1-300)"; fi
 git apply -R _out/patch.diff
-if cargo test ${CRATE:+-p $CRATE} --offline "$FILTER" >/tmp/vs-demo2.log 2>&1; then echo "demo without patch: passes (good) ($(grep -E '^test result' /tmp/vs-demo2.log | head -3 | tr '\n' ' '))"; else echo "demo without patch: FAILS (bad)"; fi
+if cargo test ${CRATE:+-p $CRATE} --offline $FILTER >/tmp/vs-demo2.log 2>&1; then echo "demo without patch: passes (good) ($(grep -E '^test result' /tmp/vs-demo2.log | head -3 | tr '\n' ' '))"; else echo "demo without patch: FAILS (bad)"; fi
 git checkout -q -- . ; git clean -fdq -e _out -e target
